@@ -1,3 +1,3 @@
 From Coq Require Import ExtrOcamlBasic ZArith.
-From RtoscV Require Import Match.PatSpec Match.MatchModel Ports.DispatchModel.
-Extraction "model.ml" Z.add Z.mul Z.opp dispatch tables_of tab_of subs_of.
+From RtoscV Require Import Match.PatSpec Match.MatchModel Ports.DispatchModel Ports.DispatchReuse.
+Extraction "model.ml" Z.add Z.mul Z.opp dispatch dispatch_reused tables_of tab_of subs_of.
